@@ -381,7 +381,9 @@ class RefEngine:
         try:
             base = self.build(cfg["init"], cfg, self.seam)
         except Exception as e:  # noqa
-            raise HarnessError("cannot build the initial curve of the plan: %r" % (e,))
+            ctx.step = -1
+            ctx.fail("valid-construction-fails", cfg["profile"], "Curve(knots, points, weights) with valid data raised %s: %s" % (type(e).__name__, e))
+            return
         self.slots = [base, None]
         self.shadow = None
         if cfg.get("shadow"):
